@@ -200,20 +200,39 @@ def num(v):
 
 
 def check_batch(args) -> Dict[str, Any]:
-    bi, seqs = args
+    bi, seqs = args[:2]
+    rebuild = len(args) > 2 and args[2] == "rebuild"
     problems: List[Dict[str, Any]] = []
     stats = {"definitions": 0, "field_comparisons": 0, "id_comparisons": 0, "padded": 0}
     d = core.scratch_dir("c04")
 
     def bad(kind, **kw):
-        problems.append({"kind": kind, "batch": bi, **kw})
+        problems.append({"kind": kind, "batch": bi, **({"rebuild": True} if rebuild else {}), **kw})
 
     try:
         prog, meta = batch_program(seqs, bi)
         try:
-            paths = defx.compile_program(prog, d, name="gen")
+            if rebuild:
+                # an earlier build of the same root file sits in the output directory; then only IMPORTED files are edited (other
+                # alias target, other constants / ids) and the closure is built again into the same place: every output must
+                # describe the closure as it is now
+                prev, _ = batch_program(seqs, bi + len(SHAPES))
+                paths = defx.compile_program(prev, d, name="gen")
+                if defx.render_file(prev.files[prev.root]) != defx.render_file(prog.files[prog.root]):
+                    raise core.HarnessError("rebuild scenario: the root file must be identical in both builds")
+                for rel, secs in prog.files.items():
+                    if rel != prog.root:
+                        with open(os.path.join(d, "src", rel), "w") as fh:
+                            fh.write(defx.render_file(secs))
+                from .. import valx
+
+                valx.compile_file(paths["root"], "gen", os.path.join(d, "gen"), python=True, c_lang=True, javascript=True, matlab=True)
+            else:
+                paths = defx.compile_program(prog, d, name="gen")
+        except core.HarnessError:
+            raise
         except Exception as e:
-            return {"problems": [{"kind": "batch-rejected", "exc": f"{type(e).__name__}: {str(e)[:300]}", "batch": bi}], "stats": stats}
+            return {"problems": [{"kind": "batch-rejected", "exc": f"{type(e).__name__}: {str(e)[:300]}", "batch": bi, **({"rebuild": True} if rebuild else {})}], "stats": stats}
         p = defx.parse_model(paths["root"])
         sp = defx.sig_parser(p)
         sp["lens"] = {n: {f.name: f.length for f in dd.fields} for coll in (p.struct_defs, p.message_defs) for n, dd in coll.items()}
@@ -348,7 +367,9 @@ def run(tier: str) -> int:
                      "was inserted.")
     seqs = sequences(tier)
     batches = [(i, b) for i, b in enumerate(core.chunks(core.shuffled(seqs, "c04"), 250))]
-    res = core.pmap(check_batch, batches)
+    multi = [b for b in batches if SHAPES[b[0] % len(SHAPES)] != "single"]
+    rebuilds = [(i, b, "rebuild") for i, b in (multi[:4] if tier == "quick" else multi)]
+    res = core.pmap(check_batch, batches + rebuilds)
     core.close_pool()
     totals: Dict[str, int] = {}
     for r in res:
@@ -358,6 +379,7 @@ def run(tier: str) -> int:
             chk.violation(f"C04:{p['kind']}:{p.get('lang', '')}", f"{p}", {"module": "vf.checks.c04", "problem": p, "seqs": None}, size=len(str(p.get("seq", p))))
     chk.merge_counts(totals)
     chk.count("programs", len(batches))
+    chk.count("rebuilds_after_editing_imported_files", len(rebuilds))
     chk.sample({"fields": [ftext(t, L) for t, L in seqs[100]]})
     chk.sample({"fields": [ftext(t, L) for t, L in seqs[-1]]})
     chk.sample({"types": TYPES[:10], "lengths": LENGTHS})
@@ -374,7 +396,7 @@ def replay(case) -> int:
     if bi >= len(batches):
         print("batch index not available with this seed/tier")
         return 2
-    r = check_batch((bi, batches[bi]))
+    r = check_batch((bi, batches[bi], "rebuild") if p.get("rebuild") else (bi, batches[bi]))
     hit = [q for q in r["problems"] if q["kind"] == p["kind"] and q.get("name") == p.get("name")]
     for q in hit[:5]:
         print("  PROBLEM:", q)
